@@ -20,7 +20,7 @@ def run_polar(ctx, progs, budgets):
     meta = []
     for i, (p, goals, tag) in enumerate(progs):
         for b in budgets:
-            tasks.append({"kind": "analyze", "text": P.prog_text(p), "goals": [], "solve": False,
+            tasks.append({"kind": "analyze", "text": P.prog_text(p), "goals": [], "solve": False, "snapshots": True,
                           "opts": {"type_fp_iterations": b}, "timeout": 60})
             meta.append((i, b))
     return meta, lib.run_tasks(tasks, timeout=60)
@@ -181,6 +181,16 @@ def run(ctx):
                                                                 "types": c["flat"]["types"], "status": c["status"], "why": c.get("why")},
                           f"check_types {c['status']} Polar's types but no reachable state within {depth} iterations is outside them",
                           no_input=True)
+    # the MODEL of the typer algorithm (Typer.typer_run; props/C05_Typer.v: its result is a post-fixpoint of the sound transfer
+    # function) evaluated in the kernel on the snapshot before TypeInferer and compared with Polar's inferred types
+    if not ctx.replay:
+        ok2, log2 = lib.coq_check_props(ctx, prop="C05_Typer")
+        if not ok2:
+            ctx.violation("proof-broken:C05_Typer", {"theorem": "props/C05_Typer.v", "log": log2[-3000:]}, "props/C05_Typer.v no longer checks", no_input=True)
+        else:
+            import typer_model
+            typer_model.run_model(ctx, [{"text": P.prog_text(progs[i][0]), "opts": {"type_fp_iterations": b}, "snapshots": r.get("snapshots") or []}
+                                        for (i, b), r in zip(meta, results) if "error" not in r])
     ctx.coverage["rule"] = ("programs from harness/gen.py (acceptance-aware: finite variables in conditions, guards, nested if/elif/else, "
                             "multi-assignment, simultaneous assignment, draws) plus the hand-written corpus, each normalised by Polar under "
                             f"type_fp_iterations in {budgets}; non-trivial = at least 2 typed variables; distinct by (text, budget)")
